@@ -36,9 +36,10 @@ class Sched:
     """baton scheduler: logical threads are real threads, exactly one runs at a time; at every scheduling point the next
     thread to run is a solver-explored choice among the runnable ones"""
 
-    def __init__(self, p, preempt_bound=None):
+    def __init__(self, p, preempt_bound=None, trace_codes=()):
         self.p = p
         self.preempt_bound = preempt_bound
+        self.trace_codes = {c: n for c, n in trace_codes}     # code object -> label: every line of these functions is a scheduling point
         self.preemptions = 0
         self.last = None
         self.threads = []
@@ -50,13 +51,31 @@ class Sched:
     def spawn(self, name, fn):
         t = types.SimpleNamespace(name=name, fn=fn, evt=_threading.Event(), done=False, blocked_on=None, result=None, exc=None, th=None)
 
+        def tracer(frame, event, arg):
+            label = self.trace_codes.get(frame.f_code)
+            if label is None:
+                return None
+
+            def local(frame, event, arg):
+                if event == "line":
+                    self.point("%s:%d" % (label, frame.f_lineno))
+                return local
+            return local
+
         def run():
             t.evt.wait()
             t.evt.clear()
             try:
+                if self.trace_codes:
+                    import sys as _sys
+                    _sys.settrace(tracer)
                 t.result = fn()
             except BaseException as e:   # engine exceptions travel to the main thread too
                 t.exc = e
+            finally:
+                if self.trace_codes:
+                    import sys as _sys
+                    _sys.settrace(None)
             t.done = True
             self.main_evt.set()
 
@@ -299,6 +318,58 @@ def h_render(p):
     return dict(solo=solo, results=[x.result for x in ths], excs=[x.exc for x in ths], trace=list(sched.trace), deadlock=dead)
 
 
+
+# ------------------------------------------------------------------ first use of lazily initialised shared state, line by line
+FIRSTUSE_TEMPLATE = ('<%def name="d()" cached="True" cache_timeout="10" cache_key="k">D</%def>'
+                     '<%def name="e()" cached="True" cache_key="k2">E</%def>${d()}${e()}${d()}')
+
+
+def firstuse_targets(CA, UTm):
+    return [(CA.Cache._get_cache_kw.__code__, "_get_cache_kw"), (UTm.memoized_property.__get__.__code__, "memoized_property"),
+            (CA.Cache.__init__.__code__, "Cache.__init__"), (CA.Cache._ctx_get_or_create.__code__, "_ctx_get_or_create")]
+
+
+def h_firstuse(p):
+    CA, TPm = common.mako("cache", "template")
+    from . import c17backend as BK
+    LK.os, LK.Template, LK.threading = ORIG["os"], ORIG["Template"], ORIG["threading"]
+    UT.timeit, UT.operator = ORIG["timeit"], ORIG["operator"]
+    CA.register_plugin("refdict", "props.c17backend", "RefDict")
+    BK.reset()
+    sched = Sched(p, 2, trace_codes=firstuse_targets(CA, UT))
+    t = TPm.Template(FIRSTUSE_TEMPLATE, cache_impl="refdict")        # a fresh Template: nothing initialised yet
+    ths = [sched.spawn(n, lambda: t.render()) for n in ("A", "B")]
+    dead = None
+    try:
+        sched.run()
+    except Deadlock as e:
+        dead = e
+    return dict(results=[x.result for x in ths], excs=[x.exc for x in ths], trace=list(sched.trace), deadlock=dead, log=list(BK.LOG))
+
+
+def on_firstuse(p, r, exc, acc):
+    if exc is not None:
+        acc.candidate(kind="harness-exception", input=None, detail="%s: %s" % (type(exc).__name__, str(exc)[:300]))
+        return
+    acc.tags["asserted"] += 1
+    desc = dict(scenario="first-use", schedule=[("%s:%s" % x) for x in r["trace"]])
+    acc.vcs += 3
+    if r["deadlock"] is not None or any(e is not None for e in r["excs"]):
+        acc.candidate(kind="render-thread-failed", input=desc, detail=repr(r["excs"]))
+        return
+    if r["results"] != ["DED", "DED"]:
+        acc.candidate(kind="render-output-depends-on-interleaving", input=desc, detail="renders gave %r" % (r["results"],))
+        return
+    # what reached the cache backend: every request for def d carries d's own arguments, every request for e carries none
+    for op, cid, key, kw in r["log"]:
+        want = {"timeout": 10} if key == "k" else {}
+        if kw != want:
+            acc.candidate(kind="first-use-cache-arguments", input=desc, detail="backend %s(%r) received %r, alone it receives %r" % (op, key, kw, want))
+            return
+    if len(acc.samples) < 6:
+        acc.sample(dict(schedule_length=len(r["trace"]), backend_calls=len(r["log"])))
+
+
 def on_render(p, r, exc, acc):
     if exc is not None:
         acc.candidate(kind="harness-exception", input=None, detail="%s: %s" % (type(exc).__name__, str(exc)[:300]))
@@ -363,6 +434,73 @@ def on_sched(p, r, exc, acc):
 
 def make_replay(c):
     i = c["input"] or {}
+
+    if i.get("scenario") == "first-use":
+        body = """
+# two real threads render one fresh Template; a line tracer in mako's own functions hands the baton over exactly as in the schedule found
+import threading
+sys.path.insert(0, "/verif")
+CASE = __CASE__
+from mako import cache as CA, util as UT
+from mako.template import Template
+from props import c17backend as BK
+from props.C16 import FIRSTUSE_TEMPLATE, firstuse_targets
+CA.register_plugin("refdict", "props.c17backend", "RefDict")
+BK.reset()
+order = [x.split(":", 1)[0] for x in CASE["schedule"]]
+codes = dict(firstuse_targets(CA, UT))
+st = {"k": 0, "diverged": False, "done": set()}
+cond = threading.Condition()
+def my_turn(name):
+    return st["diverged"] or st["k"] >= len(order) or order[st["k"]] == name or (set("AB") - {name}) <= st["done"]
+def wait_turn(name):
+    with cond:
+        t0 = time.time()
+        while not my_turn(name):
+            cond.wait(0.05)
+            if time.time() - t0 > 10: st["diverged"] = True
+def arrive(name):
+    with cond:
+        if st["k"] < len(order) and order[st["k"]] == name: st["k"] += 1
+        else: st["diverged"] = st["diverged"] or st["k"] < len(order)
+        cond.notify_all()
+    wait_turn(name)
+import time
+def tracer_for(name):
+    def tracer(frame, event, arg):
+        if frame.f_code not in codes: return None
+        def local(frame, event, arg):
+            if event == "line": arrive(name)
+            return local
+        return local
+    return tracer
+t = Template(FIRSTUSE_TEMPLATE, cache_impl="refdict")
+res = {}
+def run(name):
+    wait_turn(name)
+    sys.settrace(tracer_for(name))
+    try:
+        res[name] = t.render()
+    except Exception as e:
+        res[name] = "raised %s: %s" % (type(e).__name__, e)
+    finally:
+        sys.settrace(None)
+        with cond:
+            st["done"].add(name); cond.notify_all()
+ths = [threading.Thread(target=run, args=(n,)) for n in "AB"]
+for x in ths: x.start()
+for x in ths: x.join()
+print("schedule followed:", not st["diverged"], " outputs:", res)
+bad = None
+for op, cid, key, kw in BK.LOG:
+    print(" backend", op, key, kw)
+    want = {"timeout": 10} if key == "k" else {}
+    if kw != want: bad = "the cache backend received %r for key %r; rendered alone it receives %r" % (kw, key, want)
+if res != {"A": "DED", "B": "DED"}: bad = bad or "outputs differ from a lone render: %r" % res
+print("VIOLATED: " + bad if bad else "HOLDS")
+sys.exit(1 if bad else 0)
+""".replace("__CASE__", repr(i))
+        return (c["kind"], body, ("first-use", tuple(i["schedule"])))
     body = """
 # real threads, with the recorded schedule enforced at the same scheduling points through the same stubs
 sys.path.insert(0, "/verif")
@@ -515,13 +653,15 @@ def run(check, tier):
         "Template is a constructor stub (may fail to compile, records the mtime it read); the file system and clock are stubs",
         "the solver's part is the feasibility / exhaustion of schedule choices; results are concrete per schedule")
     check.not_claimed("preemption at arbitrary byte-code boundaries inside dict operations", "three or more threads",
-                      "concurrent renders beyond template-level scheduling points (byte-code level races in lazily memoised Template.cache / "
-                      "reserved_names / the lexer's regexp cache)")
+                      "line-level races outside Cache.__init__ / _get_cache_kw / _ctx_get_or_create / memoized_property.__get__ (e.g. the lexer's regexp cache)")
     jobs = []
     for name in SCENARIOS:
         jobs.append(("C16-" + name, h_sched(name), on_sched, "all schedules of scenario %s" % name, dict(scenario=SCENARIOS[name].__repr__()), ("asserted",)))
     jobs.append(("C16-renders", h_render, on_render, "two concurrent renders of one inheriting / namespace-using Template with different contexts, "
                  "scheduling points inside the templates, at most 3 preemptions", dict(points="sp() calls in body, defs, call bodies, includes, base template"), ("asserted",)))
+    jobs.append(("C16-firstuse", h_firstuse, on_firstuse, "two concurrent first renders of a fresh Template with cached defs: every line of "
+                 "Cache.__init__ / _get_cache_kw / _ctx_get_or_create / memoized_property.__get__ is a scheduling point, at most 2 preemptions",
+                 dict(points="line level inside the lazily initialising functions", preemption_bound=2), ("asserted",)))
     if tier == "thorough":
         for name in SCENARIOS3:
             jobs.append(("C16-" + name, h_sched(name), on_sched, "three threads, every schedule with at most 2 preemptions: %s" % name,
